@@ -8,6 +8,18 @@ CLAIMED={
   "trusted: go/types, go/ssa, the dataflow engine, SDK signature verification, gRPC dispatch",
   "static analysis: must-dataflow (guard dominance) over go/ssa CFGs of handlers enumerated from the service interface"),
 }
+
+T_GUARD="static analysis: must-dataflow of passed guards over go/ssa CFGs (guard dominance / must-pass-through), handlers enumerated from the generated service interfaces"
+def other(text): return ("other",text,"structural necessary condition decided for all paths of the current program; trusted: go/types, go/ssa, the engines and rule tables under /verif/analyzer; the behavioural remainder named in evidence.coverage.explanation is not decided")
+CLAIMED.update({
+"C29":("proof","For every object RPC entry point every object-data effect is shown on all CFG paths to be dominated by signature, token, request-info, basic-ACL(+sticky) and eACL guards; the deferred header eACL re-check is shown to precede every send/return wherever its flag is consulted.","trusted: go/types, go/ssa, the dataflow engine, the effect table and status-wrapper cut list, guard semantics (SDK / acl package), gRPC dispatch",T_GUARD),
+"C31":("proof","The single storing call in Server.Replicate is shown to be dominated by signature verification over the request's own fields, server and client container-membership (flag provenance checked) and decoding; the adapter delegates to full validation.","trusted: go/types, go/ssa, the dataflow engine, FS-chain adapter iteration, SDK crypto",T_GUARD),
+"C45":("proof","For every client object RPC entry point every storage/network effect is shown on all CFG paths to be dominated by LocalNodeUnderMaintenance()==false; the maintenance outcome answers with ErrNodeUnderMaintenance; Replicate is not refused.","trusted: go/types, go/ssa, the dataflow engine, the effect table",T_GUARD),
+"C33":other("Structural half only: exemption predicate shape, wrapper success conditions, and signature verification dominating every call through server state in every registered gRPC service method.")+(T_GUARD+"; service set derived from Register*ServiceServer call sites",),
+"C40":other("Per-call structure of the epoch timers: guard dominance of handler calls, done=true post-dominance, flag writer sets, lock span, sub-epoch handlers examined on every non-done call.")+("static analysis: guard-dominance dataflow + must-follow (post-dominance) fixpoint + field-writer table on go/ssa",),
+"C46":other("Short-read safety of Restore (no bare Reader.Read with discarded count), Dump/Restore framing agreement, counter advanced only after tolerated Put outcomes.")+("static analysis: API-contract lint bound to the property (with positive fixture) + guard dominance + sibling agreement on go/ssa",),
+"C47":other("Container discard sites are dominated by payments-enabled, payment-check ok, unpaid>=0, no-wrap ordering and grace comparison; not-found classification dominates the other two paths; caller table of discarding entry points.")+("static analysis: guard-dominance dataflow with ordering facts for the unsigned subtraction + who-may-call table on go/ssa",),
+})
 NA={
 "C04":"merge order, dedup and recomputed cursors depend on attribute values; no structural clause whose violation must break the behaviour",
 "C10":"byte-for-byte map semantics over operation sequences is a data-value property; no sound static argument in reach",
